@@ -19,7 +19,7 @@ From DV Require Import Common.Res Common.Str Common.Jv
   Orient.Model Orient.Spec Conv.Geom Conv.GeomSpec Conv.Header Conv.ExamplesGeom
   Ext.Types Ext.Model Ext.Spec
   Conv.Meta Conv.ProofsMetaBase Conv.ProofsMetaEmbed Conv.ProofsMetaStack
-  Conv.Full Conv.FullProofs Conv.FullLossless Conv.FullEx.
+  Conv.Full Conv.FullProofs Conv.FullLossless Conv.FullFrame Conv.FullEx.
 From DV Require Ext.LookupSpec.
 Import ListNotations.
 Local Open Scope nat_scope.
@@ -109,6 +109,13 @@ Proof.
   - exact (full_flip gs st code em st' go Hwf H).
 Qed.
 
+(** The domain restriction [normals_ok] follows from a condition on the SOURCES: every per-file extension carries the
+    single-file NIfTI affine ([file_affine], C02's DicomWrapper contract) of a file, and these files share
+    ImageOrientationPatient, PixelSpacing and slice spacing exactly. *)
+Theorem C01_normals_from_sources :
+  forall (V : Type) (ms : list (mfile V)), shared_frame ms -> normals_ok ms.
+Proof. exact @normals_ok_shared_frame. Qed.
+
 (* ----------------------------------------------------------------------------- non-vacuity *)
 (** the sagittal 2 x 2 pixels x 2 slices x 2 times x 2 vector components series of Conv/FullEx.v, scrambled add order,
     voxel order "LAS": the slice axis moves to output axis 0 and is flipped *)
@@ -162,4 +169,10 @@ Proof.
   split; [exact fx_wf|].
   split; [eexists; exact (proj1 (full_geom jv_eqb JNull _ _ _ _ _ _ _ _ _ _ fx_conv))|].
   repeat split; vm_compute; reflexivity.
+Qed.
+
+Example C01_normals_from_sources_ex : shared_frame fx_ms.
+Proof.
+  exists (fx_gf 0 0 0). intros m Hm. cbn [fx_ms fx_cells map In fst snd] in Hm.
+  repeat (destruct Hm as [<-|Hm]; [eexists; repeat split; reflexivity|]). contradiction.
 Qed.
